@@ -9,10 +9,14 @@ EXTRACTION = ("Extraction: Require Extraction, ExtrOcamlBasic, ExtrOcamlNatBigIn
 
 TIE = ("Tie to code: correspondence check on every run - the extracted model and the implementation (sfs-core through the "
        "sfs-probe harness and/or the real `sfs` binary, rebuilt from /repo's working tree) run on the same generated inputs; "
-       "a disagreement on a case covered by a theorem's hypotheses is reported with that input as replay. ")
+       "a disagreement on a case covered by a theorem's hypotheses is reported with that input as replay. The constants the model "
+       "relies on (npy ALIGN/MAGIC, text START, detection prefix length, BCF/gzip magic, factorial table bound) are translated from "
+       "the Rust source on every run (py/gen_constants.py) and tied to the model by small generated obligations. ")
 BASE_NOTE = ("Trusted: Coq 8.16.1 kernel (coqchk in the thorough tier), no axioms (every property theorem 'Closed under the global "
              "context', audited on every run); the hand-written Gallina model; the correspondence harness (sfs-probe, driver.ml, py/). "
-             "Modelled rather than verified: noodles (VCF/BCF/BGZF decoding), flate2, clap, nom's combinator implementation, Rust std "
+             "the constants translator (regular expressions over the source). "
+             "Modelled rather than verified: noodles (of which the GT parser and the BCF GT-vector conversion are modelled in Container.v and "
+             "compared with the real readers; record framing, BGZF, header parsing are exercised only), flate2, clap, nom's combinator implementation, Rust std "
              "float formatting/parsing, libm; f64 rounding is bounded empirically (stated tolerances), theorems are in exact arithmetic. ")
 
 def C(text, technique, design, note=""):
@@ -43,9 +47,12 @@ CLAIMED = {
           "Rocq proof over Qc (histogram lemma, field) + `sfs stat` differential and an independent genotype-level oracle", "7/C06",
           "The square root of the D statistics is left symbolic (numerator, radicand)."),
  "C08": C("Proof: exact iff-characterisation of the four classes of a decoded GT; a selected non-diploid genotype fails the run at "
-          "that record with its contig:position and no spectrum; unselected columns never matter.",
-          "Rocq proof (case analysis, run-loop induction) + exhaustive GT alphabet through function, VCF and BCF paths", "7/C08",
-          "GT text/BCF decoding is noodles."),
+          "that record with its contig:position and no spectrum; unselected columns never matter; the VCF text path (noodles' GT parser "
+          "written out) and the BCF binary path (int8 vector as htslib lays it out -> text -> the same parser) decode every genotype to its "
+          "alleles and classify it alike, whatever the phasing and padding (the pre-repair disagreement on '.' is kept as a refutation).",
+          "Rocq proof (case analysis, run-loop induction, parser round trip) + exhaustive GT alphabet through function, VCF and BCF paths, "
+          "real readers on in-memory containers incl. hand-encoded BCF (mixed ploidy, '.', raw int8 vectors)", "7/C08",
+          "Record framing around the GT value (VCF line splitting, BCF typed values) is noodles: exercised, not modelled."),
  "C09": C("Proof: population ids = position of first appearance of the label, axis lengths 2n+1, unnamed = one population, "
           "label-order-preserving reorderings and column permutations change nothing observable, empty/unknown are errors.",
           "Rocq proof (fold invariant of the IndexMap/IndexSet model, permutation invariance) + differential incl. -s vs -S on the binary", "7/C09"),
@@ -91,17 +98,20 @@ CLAIMED.update({
           "Partial: what noodles does between fill_buf calls (record parsing, inflate, BGZF worker threads) is exercised through the "
           "chunked stream, not modelled."),
  "C12": C("Proof (partial): container detection is transport-independent and follows from the magic numbers; shape and population ids are "
-          "functions of the sample list only (no hash order); column order of the container is irrelevant. Exercised: the same call "
-          "set as VCF, BGZF VCF (4 block layouts), BGZF BCF, raw BCF x path/stdin x threads 1..16 x repeated runs give byte-identical "
-          "stdout, equal to the model's.",
+          "functions of the sample list only (no hash order); column order of the container is irrelevant; a genotype, and a whole record "
+          "padded to its widest genotype, is classified alike from VCF text and from the BCF vector. Exercised: the same call "
+          "set as VCF, BGZF VCF (8 block layouts incl. empty / tiny / maximum-length stored first blocks), BGZF BCF, raw BCF (noodles' writer and a "
+          "hand-written htslib-layout encoder) x path / stdin / stdin trickled in short writes x threads 1..16 x repeated runs give "
+          "byte-identical stdout, equal to the model's.",
           "Rocq proof of the modelled logic + implementation-vs-implementation and vs-model runs across containers/transports/threads", "7/C12",
           "Partial: decoding, inflate and worker-thread scheduling live in noodles/flate2: sampled, not proved."),
  "C17": C("Proof (partial): the panic skeleton of fold / stat (all 14) / view (Model/Panic.v: every unsigned subtraction, division, "
           "index and panicking constructor with its source site) never reaches Panic on any spectrum the readers accept, for every "
           "shape, statistic and option value; the readers guarantee count, no zero-length axis, no format for short inputs.",
           "Rocq proof about a panic skeleton + grid/bounds/mutation runs of the binary (exit 101, 'panicked at', signals)", "7/C17",
-          "Partial: clap, the VCF/BCF/BGZF decoders (noodles) and allocation are not modelled; mutated call-set bytes are fuzz-style "
-          "support only. The skeleton is hand-written from the repaired sources; its fidelity is supported by the grid runs in debug "
+          "Partial: clap, the VCF/BCF/BGZF decoders (noodles) and allocation are not modelled; mutated call-set bytes (incl. EVERY single-bit "
+          "flip of a BCF's record region) are support only; three panics inside noodles-bcf 0.32 reached that way are open known findings "
+          "F19-F21 (known_findings.json, DESIGN 13.3). The skeleton is hand-written from the repaired sources; its fidelity is supported by the grid runs in debug "
           "(overflow checks on)."),
 })
 
@@ -144,7 +154,9 @@ def main():
                                        "(extracted OCaml model vs sfs-core / sfs built from /repo's working tree)"}],
         "checks": checks,
         "not_applicable": na,
-        "notes": "Genuine defects repaired by fix: commits are listed in known_findings.json (status fixed). "
+        "notes": "Genuine defects repaired by fix: commits are listed in known_findings.json (status fixed, 17 of them); three open "
+                 "findings (panics inside noodles-bcf on unusual / corrupt BCF, property C17) are listed there with status open, "
+                 "identified by panic site, replays under findings/. "
                  "Every check rebuilds the harness and the sfs binary from /repo's working tree (cargo, incremental).",
     }
     json.dump(m, open(os.path.join(ROOT, "MANIFEST.json"), "w"), indent=1)
